@@ -6,6 +6,12 @@ From Coq Require Import Lia List Bool Arith.
 Import ListNotations.
 Open Scope list_scope.
 
+Arguments lsum : simpl never.
+
+Ltac msimpl := cbn [e_r e_loops e_ing e_t set_r set_started set_t set_ing set_loops set_cancel set_insd set_inall
+                    set_alloc trigger trigger_ing set_next set_workers set_users put_user new_worker set_hist].
+Ltac mfin := msimpl; try (destruct (e_t _)); lia.
+
 Lemma measure_eq : forall s,
   measure s = (r_measure s + lsum loop_measure (e_loops s) + loop_measure (e_ing s) + t_measure s)%nat.
 Proof. reflexivity. Qed.
@@ -43,7 +49,7 @@ Proof.
   intros s s' evs HI H. unfold rstep in H.
   destruct (e_r s) eqn:Er; try discriminate H; cbv beta iota in H; step_cases H.
   all: rewrite !measure_eq; unfold r_measure, t_measure; rewrite Er.
-  - (* OnBoot returned Shutdown *) cbn. lia.
+  - (* OnBoot returned Shutdown *) mfin.
   - (* start *)
     pose proof (unstarted_at _ HI) as Hu. rewrite Er in Hu. specialize (Hu eq_refl).
     destruct (ip_unstarted _ HI Hu) as [Hl [Hi [Ht _]]].
@@ -53,21 +59,21 @@ Proof.
       unfold loop_measure; cbn. rewrite Hl. rewrite Hq; auto. }
     assert (HG : loop_measure (l_set_pc (e_ing s) LPoll) = loop_measure (e_ing s)).
     { unfold loop_measure; cbn. rewrite Hi, Hic. reflexivity. }
-    destruct (c_ticker (e_cfg s)); destruct (c_reactor (e_cfg s)); cbn [e_r e_loops e_ing e_t set_r set_started set_t set_ing set_loops];
+    destruct (c_ticker (e_cfg s)); destruct (c_reactor (e_cfg s)); msimpl;
       rewrite ?map_length, ?HL, ?HG, ?Ht; lia.
-  - destruct (c_client (e_cfg s)); cbn; lia.
-  - cbn. lia.
-  - cbn. lia.
+  - destruct (c_client (e_cfg s)); mfin.
+  - mfin.
+  - mfin.
   - (* notify loop k *)
-    apply Nat.ltb_lt in E. cbn [e_r e_loops e_ing e_t set_r trigger set_loops].
-    rewrite upd_length, lsum_upd_same by (intros; apply loop_measure_enq). lia.
+    apply Nat.ltb_lt in E. msimpl.
+    rewrite upd_length, lsum_upd_same by (intros; apply loop_measure_enq). destruct (e_t s); lia.
   - (* notify main reactor *)
-    destruct (c_reactor (e_cfg s)); cbn [e_r e_loops e_ing e_t set_r trigger_ing set_ing]; rewrite ?loop_measure_enq; lia.
-  - cbn. lia.
-  - cbn [e_r e_loops e_ing e_t set_r set_ing set_loops].
-    rewrite lsum_map_eq by (intros; apply loop_measure_pclosed). rewrite loop_measure_pclosed. lia.
-  - cbn. lia.
-  - cbn. lia.
+    destruct (c_reactor (e_cfg s)); msimpl; rewrite ?loop_measure_enq; destruct (e_t s); lia.
+  - mfin.
+  - msimpl. rewrite ?map_length.
+    rewrite lsum_map_eq by (intros; apply loop_measure_pclosed). rewrite loop_measure_pclosed. destruct (e_t s); lia.
+  - mfin.
+  - mfin.
 Qed.
 
 Lemma loop_common_decreases : forall t l l' evs off, loop_common t l CNone = Some (l', evs, off) ->
@@ -101,8 +107,10 @@ Proof.
     all: try (unfold loop_common in H; rewrite Epc in H; discriminate H).
     injection H as <- <-.
     pose proof (measure_put s i l (l_set_pc (l_set_q l (remove_nth k (l_q l))) LClosing) Hl) as Hm.
+    assert (M1 : loop_measure (l_set_pc (l_set_q l (remove_nth k (l_q l))) LClosing) = (2 + List.length (l_conns l))%nat) by reflexivity.
+    assert (M2 : loop_measure l = (3 + List.length (l_conns l))%nat) by (unfold loop_measure; rewrite Epc; reflexivity).
     rewrite !measure_eq; unfold r_measure, t_measure; cbn [e_r e_loops e_ing e_t set_loops]. rewrite upd_length.
-    unfold loop_measure in Hm at 1 3. cbn in Hm. rewrite Epc in Hm. lia.
+    lia.
 Qed.
 
 Lemma astep_decreases : forall s c s' evs, astep s c = Some (s', evs) -> is_progress s TA c = true ->
@@ -141,4 +149,219 @@ Proof.
   - destruct c; try discriminate Hp. eapply tstep_decreases; eauto.
   - discriminate Hp.
   - discriminate Hp.
+Qed.
+
+(* ------------------------------------------------------------------ *)
+(* any other step adds at most one unit of work *)
+
+Lemma zremove_length : forall x l, (List.length (zremove x l) <= List.length l)%nat.
+Proof. induction l; cbn; [lia|]. destruct (x =? a)%Z; cbn; lia. Qed.
+
+Lemma apply_cb_measure : forall t l cid h l2 evs d, apply_cb t l cid h = (l2, evs, d) -> l_pc l = LPoll ->
+  (loop_measure l2 <= loop_measure l)%nat.
+Proof.
+  intros t l cid h l2 evs d H Hp. unfold apply_cb in H. destruct (after_cb h) as [[cl se] off].
+  injection H as <- <- <-. pose proof (zremove_length cid (l_conns l)).
+  unfold loop_measure. destruct cl, se; cbn; rewrite ?Hp; lia.
+Qed.
+
+Lemma measure_put_le : forall s i l l' k,
+  get_loop s i = Some l -> (loop_measure l' <= loop_measure l + k)%nat ->
+  (lsum loop_measure (upd i (fun _ => l') (e_loops s)) <= lsum loop_measure (e_loops s) + k)%nat.
+Proof. intros s i l l' k H Hle. pose proof (measure_put s i l l' H). lia. Qed.
+
+Lemma measure_signal : forall s o, measure (signal s o) = measure s.
+Proof. intros s [|k|g]; reflexivity. Qed.
+
+Ltac mhead := rewrite ?measure_signal, ?measure_cancel_if; rewrite !measure_eq; unfold r_measure, t_measure; msimpl; rewrite ?upd_length.
+
+Lemma lstep_bound : forall i s c s' evs, lstep i s c = Some (s', evs) -> (measure s' <= measure s + 1)%nat.
+Proof.
+  intros i s c s' evs H.
+  destruct (is_progress s (TL i) c) eqn:Hp; [pose proof (lstep_decreases _ _ _ _ _ H Hp); lia|].
+  unfold lstep in H. destruct (get_loop s i) as [l|] eqn:Hl; [|discriminate H].
+  destruct (l_pc l) eqn:Epc.
+  2: destruct c as [| | | | |io|k h| | | | | | |]; try (destruct io).
+  all: step_cases H.
+  all: try match goal with E : loop_common _ _ _ = Some _ |- _ => unfold loop_common in E; rewrite Epc in E; step_cases E end.
+  all: try (cbn in Hp; rewrite Hl in Hp; discriminate Hp).
+  all: try match goal with E : apply_cb _ _ _ _ = _ |- _ => apply apply_cb_measure in E; [|exact Epc] end.
+  all: try match goal with H : false = ?b |- _ => subst b end.
+  all: try match goal with H : true = ?b |- _ => subst b end.
+  all: mhead.
+  all: match goal with |- context [upd ?j (fun _ => ?l') ?ls] =>
+         assert (HM : (lsum loop_measure (upd j (fun _ => l') ls) <= lsum loop_measure ls + 1)%nat);
+         [eapply measure_put_le; [exact Hl|]|] end.
+  all: try lia.
+  all: unfold loop_measure in *; cbn in *; rewrite ?Epc in *; cbn in *; rewrite ?app_length in *; cbn in *;
+       try (pose proof (zremove_length cid (l_conns l))); try destruct (act_shut _); cbn; rewrite ?Epc; try lia.
+Qed.
+
+Lemma other_steps_same : forall s t c s' evs,
+  (match t with TU _ | TW _ => True | _ => False end) ->
+  estep_opt s t c = Some (s', evs) -> measure s' = measure s.
+Proof.
+  intros s t c s' evs Ht H. destruct t; try contradiction; cbn in H.
+  - unfold ustep in H. destruct (get_user s g); [|discriminate].
+    destruct u as [|ex pk|op].
+    + destruct c; try discriminate H. unfold do_call in H. destruct c; step_cases H.
+      all: mhead; try (destruct b); msimpl; rewrite ?upd_length, ?lsum_upd_same by (intros; apply loop_measure_enq); try reflexivity.
+    + destruct c; try discriminate H; step_cases H; try (destruct pk); mhead; reflexivity.
+    + step_cases H; mhead; reflexivity.
+  - unfold wstep in H. step_cases H.
+    all: mhead; rewrite ?upd_length, ?lsum_upd_same by (intros; apply loop_measure_enq); reflexivity.
+Qed.
+
+Theorem step_bound : forall s t c s' evs, Inv_pc s ->
+  estep_opt s t c = Some (s', evs) -> (measure (push evs s') <= measure s + 1)%nat.
+Proof.
+  intros s t c s' evs HI H. change (measure (push evs s')) with (measure s').
+  destruct (is_progress s t c) eqn:Hp.
+  { pose proof (progress_decreases _ _ _ _ _ HI H Hp) as Hd. change (measure (push evs s')) with (measure s') in Hd. lia. }
+  destruct t.
+  - (* Run caller: OnBoot, Client.Stop *)
+    cbn in H. unfold rstep in H. destruct (e_r s) eqn:Er; destruct c; try discriminate H; try discriminate Hp; cbv beta iota in H; step_cases H.
+    all: mhead; rewrite Er; destruct (e_t s); lia.
+  - eapply lstep_bound; exact H.
+  - (* main reactor *)
+    cbn in H. unfold astep in H.
+    destruct (l_pc (e_ing s)) eqn:Epc.
+    2: destruct c as [| | |li| | |k h| | | | | | |].
+    all: try discriminate Hp.
+    all: step_cases H.
+    all: try match goal with E : loop_common _ _ _ = Some _ |- _ => unfold loop_common in E; rewrite Epc in E; step_cases E end.
+    all: try match goal with H : false = ?b |- _ => subst b end.
+    all: try (subst c; discriminate Hp).
+    all: mhead; rewrite ?lsum_upd_same by (intros; apply loop_measure_enq); try lia.
+    all: unfold loop_measure; cbn; rewrite Epc; lia.
+  - (* ticker *)
+    cbn in H. unfold tstep in H. step_cases H; try discriminate Hp.
+    destruct (act_shut a); [destruct (c_reactor (e_cfg s))|]; mhead;
+      rewrite ?lsum_upd_same by (intros; apply loop_measure_enq); rewrite ?loop_measure_enq; lia.
+  - rewrite (other_steps_same s (TU g) c s' evs I H). lia.
+  - rewrite (other_steps_same s (TW k) c s' evs I H). lia.
+Qed.
+
+(* ------------------------------------------------------------------ *)
+(* no stuck state before the return *)
+
+Definition stop_pending (s : estate) : bool :=
+  match e_r s with
+  | RCancelled | RNotify _ | RWait | RClosePollers | RStoreInsd | RReturn => true
+  | _ => false
+  end.
+
+(* shutdown has been requested by a documented means: for a server any request the
+   engine acts upon; for a client, Client.Stop has been called *)
+Definition shutdown_requested (s : estate) : Prop :=
+  requested s = true /\ (c_client (e_cfg s) = true -> stop_pending s = true).
+
+Definition enabled (s : estate) (t : tid) (c : choice) : Prop := estep_opt s t c <> None.
+
+Lemma shut_index_nth : forall q, has_shut q = true -> exists k, nth_error q k = Some TShut.
+Proof.
+  induction q as [|t r IH]; cbn; [discriminate|]. intros H. destruct t.
+  - exists O. reflexivity.
+  - cbn in H. destruct (IH H) as [k Hk]. exists (S k). exact Hk.
+  - cbn in H. destruct (IH H) as [k Hk]. exists (S k). exact Hk.
+Qed.
+
+Lemma gone_loop_enabled : forall s i l, get_loop s i = Some l -> gone l -> l_pc l <> LExited ->
+  exists c, is_progress s (TL i) c = true /\ enabled s (TL i) c.
+Proof.
+  intros s i l Hl Hg Hne. unfold gone in Hg. unfold enabled. cbn [estep_opt]. unfold lstep. rewrite Hl.
+  destruct (l_pc l) eqn:Epc; try contradiction; try congruence.
+  - destruct (shut_index_nth _ Hg) as [k Hk]. exists (CRun k h_none). split.
+    + cbn. rewrite Hl, Hk. reflexivity.
+    + rewrite Hk. discriminate.
+  - exists CNone. split; [reflexivity|]. unfold loop_common. rewrite Epc. destruct (l_conns l); discriminate.
+  - exists CNone. split; [reflexivity|]. unfold loop_common. rewrite Epc. discriminate.
+Qed.
+
+Lemma gone_ing_enabled : forall s, gone (e_ing s) -> l_pc (e_ing s) <> LExited ->
+  exists c, is_progress s TA c = true /\ enabled s TA c.
+Proof.
+  intros s Hg Hne. unfold gone in Hg. unfold enabled. cbn [estep_opt]. unfold astep.
+  destruct (l_pc (e_ing s)) eqn:Epc; try contradiction; try congruence.
+  - destruct (shut_index_nth _ Hg) as [k Hk]. exists (CRun k h_none). split; [reflexivity|]. rewrite Hk. discriminate.
+  - exists CNone. split; [reflexivity|]. unfold loop_common. rewrite Epc. destruct (l_conns (e_ing s)); discriminate.
+  - exists CNone. split; [reflexivity|]. unfold loop_common. rewrite Epc. discriminate.
+Qed.
+
+Lemma unwinding_gone : forall l, loop_unwinding l = true -> gone l /\ l_pc l <> LExited.
+Proof.
+  intros l H. unfold loop_unwinding in H. unfold gone. destruct (l_pc l); try discriminate; split; auto; discriminate.
+Qed.
+
+Theorem no_stuck : forall s, Inv_pc s -> shutdown_requested s -> returned s = false -> e_r s <> R0 ->
+  exists t c, is_progress s t c = true /\ enabled s t c.
+Proof.
+  intros s HI [Hreq Hcl] Hret Hr0.
+  assert (RN : forall c0, rstep s CNone = c0 -> c0 <> None -> exists t c, is_progress s t c = true /\ enabled s t c).
+  { intros c0 E Hn. exists TR, CNone. split; [reflexivity|]. unfold enabled; cbn. congruence. }
+  unfold returned in Hret.
+  destruct (e_r s) eqn:Er; try congruence.
+  - (* RBooted *) eapply RN; [reflexivity|]. unfold rstep. rewrite Er. destruct (negb (c_client (e_cfg s)) && act_shut a); discriminate.
+  - eapply RN; [reflexivity|]. unfold rstep. rewrite Er. discriminate.
+  - (* RServing *)
+    destruct (c_client (e_cfg s)) eqn:Ecl.
+    { specialize (Hcl eq_refl). unfold stop_pending in Hcl. rewrite Er in Hcl. discriminate. }
+    destruct (e_cancel s) eqn:Ec.
+    { eapply RN; [reflexivity|]. unfold rstep. rewrite Er, Ecl, Ec. discriminate. }
+    unfold requested in Hreq. rewrite Ec in Hreq. cbn in Hreq. apply orb_prop in Hreq. destruct Hreq as [Hl|Hi].
+    + apply existsb_exists in Hl. destruct Hl as [l [Hin Hu]]. apply In_nth_error in Hin. destruct Hin as [i Hi].
+      destruct (unwinding_gone _ Hu) as [Hg Hne].
+      destruct (gone_loop_enabled s i l Hi Hg Hne) as [c [H1 H2]]. exists (TL i), c. auto.
+    + destruct (unwinding_gone _ Hi) as [Hg Hne]. destruct (gone_ing_enabled s Hg Hne) as [c [H1 H2]]. exists TA, c. auto.
+  - eapply RN; [reflexivity|]. unfold rstep. rewrite Er. discriminate.
+  - eapply RN; [reflexivity|]. unfold rstep. rewrite Er. destruct (k <? Datatypes.length (e_loops s))%nat; discriminate.
+  - (* RWait *)
+    destruct (all_exited s) eqn:Ea.
+    { eapply RN; [reflexivity|]. unfold rstep. rewrite Er, Ea. discriminate. }
+    destruct (ip_wait _ HI Er) as [Hgl Hgi].
+    assert (Hc : e_cancel s = true) by (apply (ip_cancel _ HI); rewrite Er; reflexivity).
+    unfold all_exited in Ea. apply andb_false_iff in Ea. destruct Ea as [Ea|Et].
+    + apply andb_false_iff in Ea. destruct Ea as [El|Ei].
+      * (* some loop has not exited *)
+        assert (exists i l, get_loop s i = Some l /\ l_pc l <> LExited) as [i [l [Hi Hne]]].
+        { unfold get_loop. clear Hgl. induction (e_loops s) as [|x r IH]; cbn in El; [discriminate|].
+          apply andb_false_iff in El. destruct El as [Ex|Er'].
+          - exists O, x. split; [reflexivity|]. destruct (l_pc x); try discriminate; congruence.
+          - destruct (IH Er') as [i [l [Hi Hne]]]. exists (S i), l. auto. }
+        pose proof (Forall_nth_error _ _ _ _ _ Hgl Hi) as Hg.
+        destruct (gone_loop_enabled s i l Hi Hg Hne) as [c [H1 H2]]. exists (TL i), c. auto.
+      * (* the main reactor has not exited *)
+        destruct (c_reactor (e_cfg s)) eqn:Ere.
+        -- assert (Hne : l_pc (e_ing s) <> LExited) by (intro X; rewrite X in Ei; discriminate).
+           destruct (gone_ing_enabled s (Hgi eq_refl) Hne) as [c [H1 H2]]. exists TA, c. auto.
+        -- rewrite (ip_noreactor _ HI Ere) in Ei. discriminate.
+    + (* the ticker is still running *)
+      exists TT, CNone. split; [reflexivity|]. unfold enabled; cbn. unfold tstep.
+      destruct (e_t s); try discriminate. rewrite Hc. discriminate.
+  - eapply RN; [reflexivity|]. unfold rstep. rewrite Er. discriminate.
+  - eapply RN; [reflexivity|]. unfold rstep. rewrite Er. discriminate.
+  - eapply RN; [reflexivity|]. unfold rstep. rewrite Er. discriminate.
+Qed.
+
+(* ------------------------------------------------------------------ *)
+(* executions: the number of engine steps after a request is bounded by the measure
+   plus the number of other steps *)
+
+Inductive pexec : estate -> nat -> nat -> estate -> Prop :=
+| pe_nil : forall s, pexec s 0 0 s
+| pe_step : forall s p o s1 t c s2 evs,
+    pexec s p o s1 -> estep_opt s1 t c = Some (s2, evs) ->
+    pexec s (p + (if is_progress s1 t c then 1 else 0)) (o + (if is_progress s1 t c then 0 else 1)) (push evs s2).
+
+Lemma pexec_reachable : forall s p o s', ereachable s -> pexec s p o s' -> ereachable s'.
+Proof. intros s p o s' Hr H. induction H; [exact Hr|]. eapply ereachable_step; [apply IHpexec; exact Hr|eassumption]. Qed.
+
+Theorem shutdown_bounded : forall s p o s', ereachable s -> pexec s p o s' ->
+  (p + measure s' <= measure s + o)%nat.
+Proof.
+  intros s p o s' Hr H. induction H; [lia|].
+  specialize (IHpexec Hr). pose proof (inv_pc_reachable _ (pexec_reachable _ _ _ _ Hr H)) as HI.
+  destruct (is_progress s1 t c) eqn:Hp.
+  - pose proof (progress_decreases _ _ _ _ _ HI H0 Hp). lia.
+  - pose proof (step_bound _ _ _ _ _ HI H0). lia.
 Qed.
